@@ -144,6 +144,26 @@ func genC22(r *simcore.Rand, tier string) any {
 		if single {
 			p.K.NoAsyncFlush = true
 			ph.Ops = genOps(r, &p.K, nops/nph+1, 1, 10)
+			// held iterators: opened, partially drained, drained after more layers
+			// were added and flattened underneath
+			var ops []Op
+			for _, op := range ph.Ops {
+				ops = append(ops, op)
+				switch r.Intn(8) {
+				case 0:
+					rd := genRead(r, &p.K, true)
+					if r.Bool(0.6) {
+						rd.Kind, rd.Seek = 5, 0
+					}
+					ops = append(ops, Op{K: "popen", R: &rd, T: r.Intn(4), P: r.Intn(3)})
+				case 1:
+					ops = append(ops, Op{K: "pdrain", T: r.Intn(4)})
+				}
+			}
+			for s := 0; s < 4; s++ {
+				ops = append(ops, Op{K: "pdrain", T: s})
+			}
+			ph.Ops = ops
 		} else {
 			ph.Ops = genOps(r, &p.K, nops/nph+1, 1, 3)
 			for j := r.Range(1, 3); j > 0; j-- {
